@@ -15,7 +15,10 @@ RULE = ('a genome of 1..4 contigs (with and without names containing "_", keep-a
         'Genome.get_intervals/get_track/read_intervals(stream) under bnp.compute (get_data, start/stop, pileup sum), '
         'MultiStream attribute / zip first and second slot / get_contingency_table+forbes+jaccard — each with the data as a chunk '
         'stream AND as one table held in memory —, left_join over groupby. '
-        'non-trivial = at least two groups, or a group order that must raise')
+        'Every data class also with the contig names held as integer codes of a StringEncoding (label order = genome order, '
+        'reversed, non-genome names first) next to plain text; sessions with two genomes alive (g2 = g.with_ignored_added(0..2 '
+        'names incl. a genome contig), consumers run on g — which must behave as if nothing had been derived — and on g2, data '
+        'naming the added contigs). non-trivial = at least two groups, or a group order that must raise')
 EXHAUSTIVE = {'quick': False, 'thorough': False}
 TIE = ('translator+correspondence: translate/gen_c12.py regenerates the decision rules (ignored/included, walked order, '
        '_included_groups skip/raise/yield, iter_chromosomes sort-order and left-over tests and their position before the '
